@@ -22,7 +22,13 @@ type Result struct {
 	Resp   []byte // nil when the child died or was killed
 	Crash  string // "", "Crash" or "Timeout"
 	Stderr string // tail of the child's standard error on Crash
+	// Hist: the requests the same child executed before this one (most recent
+	// maxHist); needed to reproduce a disagreement that depends on state the
+	// library keeps between calls.
+	Hist [][]byte
 }
+
+const maxHist = 20000
 
 // Pool runs requests in long-lived child processes (this binary, "exec
 // <family>") so that a panic, a fatal runtime error or a hang of the library
@@ -67,6 +73,7 @@ func (p *Pool) Submit(req []byte) { p.reqs <- req }
 func (p *Pool) Close() { close(p.reqs); p.wg.Wait() }
 
 type child struct {
+	hist   [][]byte
 	cmd    *exec.Cmd
 	in     io.WriteCloser
 	out    *bufio.Reader
@@ -153,7 +160,11 @@ func (p *Pool) worker() {
 				c = nil
 				continue
 			}
-			p.deliver(Result{Req: req, Resp: bytes.TrimRight(r.line, "\n")})
+			p.deliver(Result{Req: req, Resp: bytes.TrimRight(r.line, "\n"), Hist: c.hist})
+			c.hist = append(c.hist, req)
+			if len(c.hist) > maxHist {
+				c.hist = append([][]byte{}, c.hist[maxHist/2:]...)
+			}
 		case <-time.After(p.Timeout):
 			c.kill()
 			c = nil
